@@ -46,15 +46,15 @@ def evaluate(seed_dir: Path, checks: list[str], skip_suite: bool = False, tier: 
             return {"error": "worktree: " + out}
         env = dict(os.environ, PYTHONPATH=str(wt))
         if demo.exists():
-            shutil.copy(demo, wt / "_demo.py")
-            rc0, out0 = sh([PY, "_demo.py"], wt, env, 600)
+            shutil.copy(demo, wt / "_demo_script")
+            rc0, out0 = sh([PY, "_demo_script"], wt, env, 600)
             res["demo_clean"] = {"exit": rc0, "tail": out0[-300:]}
         rc, out = sh(["git", "apply", "--whitespace=nowarn", str(patch)], wt)
         if rc:
             return {"error": "patch does not apply: " + out[-400:]}
         res["files"] = sh(["git", "diff", "--stat"], wt)[1].strip().splitlines()[-1:]
         if demo.exists():
-            rc1, out1 = sh([PY, "_demo.py"], wt, env, 600)
+            rc1, out1 = sh([PY, "_demo_script"], wt, env, 600)
             res["demo_patched"] = {"exit": rc1, "tail": out1[-400:]}
         if not skip_suite:
             rc, out = sh([PY, "-m", "pytest", "-q", "-p", "no:cacheprovider", "--timeout=900", "-x"], wt, None, 1800)
